@@ -83,7 +83,7 @@ theorem limits_spec (L : Lits K) (P : Params K) (s : State K) (hd : P.direction 
       have := abs_eq_zero.mp this
       linarith
     · -- landing: the step becomes |xend - x| and ends exactly at xend
-      refine ⟨hx2, rfl, ?_⟩
+      refine ⟨hx2, ?_, by simp⟩
       have hov' : P.direction * (s2.x + L.stretch * (P.direction * s2.h) - P.xend) > 0 := by simpa [hz] using hov
       have hexp : P.direction * (s2.x + L.stretch * (P.direction * s2.h) - P.xend)
           = P.direction * (s2.x - P.xend) + L.stretch * s2.h := by
@@ -117,11 +117,10 @@ theorem limits_spec (L : Lits K) (P : Params K) (s : State K) (hd : P.direction 
           · rw [hd1]; ring
       have hh : s2.h * (Num.abs (P.xend - s2.x) / s2.h) = |P.xend - s2.x| := by
         rw [num_abs]; field_simp
+      show P.xend = s2.x + P.direction * (s2.h * (Num.abs (P.xend - s2.x) / s2.h))
       rw [hh, habs]
-      have : P.direction * (s2.x + P.direction * (P.direction * (P.xend - s2.x)) - P.xend) = 0 := by
-        have e : P.direction * (P.direction * (P.xend - s2.x)) = P.xend - s2.x := by rw [← mul_assoc, hd, one_mul]
-        rw [e]; ring
-      linarith
+      have e : P.direction * (P.direction * (P.xend - s2.x)) = P.xend - s2.x := by rw [← mul_assoc, hd, one_mul]
+      rw [e]; ring
   · rename_i hov
     refine ⟨hx2, rfl, ?_⟩
     have hov' : P.direction * (s2.x + L.stretch * (P.direction * s2.h) - P.xend) ≤ 0 := by simpa [hz] using hov
@@ -295,7 +294,7 @@ theorem limits_le_hmax (L : Lits K) (P : Params K) (s : State K) (hd : P.directi
         have := congrArg Prod.fst hl; exact this.symm
       have e2 : hS = P.direction * (s2.h * (Num.abs (P.xend - s2.x) / s2.h)) := by
         have := congrArg (fun t => t.2.1) hl; exact this.symm
-      have e3 : xN = s2.x + P.direction * (s2.h * (Num.abs (P.xend - s2.x) / s2.h)) := by
+      have e3 : xN = P.xend := by
         have := congrArg (fun t => t.2.2) hl; exact this.symm
       have hne : s2.h ≠ 0 := ne_of_gt h2h.1
       have hmul : s2.h * (Num.abs (P.xend - s2.x) / s2.h) = |P.xend - s2.x| := by rw [num_abs]; field_simp
@@ -312,13 +311,13 @@ theorem limits_le_hmax (L : Lits K) (P : Params K) (s : State K) (hd : P.directi
         rw [← this, abs_of_nonneg h0]
       have hlt : |P.xend - s2.x| < L.stretch * s2.h := by
         rw [hdist]; rw [hexp] at hov'; nlinarith
-      refine ⟨by rw [e3, e2, h2x], ?_, Or.inr ?_⟩
+      refine ⟨?_, ?_, Or.inr e3⟩
+      · rw [e3, e2, hmul, hdist, ← h2x]
+        have e : P.direction * (P.direction * (P.xend - s2.x)) = P.xend - s2.x := by rw [← mul_assoc, hd, one_mul]
+        rw [e]; ring
       · rw [e2, habs, hmul, abs_abs]
         have : L.stretch * s2.h ≤ L.stretch * P.hmax := mul_le_mul_of_nonneg_left h2h.2 (by linarith)
         exact le_of_lt (lt_of_lt_of_le hlt this)
-      · rw [e3, hmul, hdist]
-        have e : P.direction * (P.direction * (P.xend - s2.x)) = P.xend - s2.x := by rw [← mul_assoc, hd, one_mul]
-        rw [e]; ring
   · injection hl with hl
     have e2 : hS = P.direction * s2.h := by have := congrArg (fun t => t.2.1) hl; exact this.symm
     have e3 : xN = s2.x + P.direction * s2.h := by have := congrArg (fun t => t.2.2) hl; exact this.symm
